@@ -594,7 +594,7 @@ package service
 //@   params addr
 //@   pure
 //@   requires addr != nil
-//@   trace[C04,C14,dns-means-port-53-of-this-address] each net.SplitHostPort satisfies $arg0 == pure("net.Addr.String", addr) && result == ($res1 == "53")
+//@   trace[C04,C14,dns-means-port-53-of-this-address] each net.SplitHostPort satisfies $arg0 == pure("net.Addr.String", addr) && ($res2 == nil ==> result == ($res1 == "53")) && (result ==> $res1 == "53")
 //@   trace[C14,port-looked-up-once] exactly 1 net.SplitHostPort
 
 // onWrite: the association's deadline never moves earlier, is at least now + 17 s after a DNS
